@@ -19,6 +19,9 @@ NORMALIZE = [
     "opening_hours::opening_hours::OpeningHours::<L>::normalize",
 ]
 
+# element-dropping, early-stopping or reordering operations on a stream or container
+THINNING = re.compile(r"^(skip|skip_while|take|take_while|filter|filter_map|map_while|step_by|rev|nth|nth_back|last|next_back|advance_by|dedup\w*|retain\w*|truncate|drain|remove|swap_remove|pop|pop_front|pop_back|split_off|clear|sort\w*|reverse|rotate_\w+|swap|fuse|scan|flat_map|flatten|min\w*|max\w*|find\w*|position|rposition)$")
+
 HASH_ITER = re.compile(r"std::collections::hash::(map::HashMap|set::HashSet)::<.*>::(iter|iter_mut|keys|values|values_mut|into_keys|into_values|drain|retain|extract_if)$|"
                        r"<(&'a )?(mut )?std::collections::hash::(map::HashMap|set::HashSet)<.*> as core::iter::traits::collect::IntoIterator>::into_iter$")
 
@@ -88,16 +91,45 @@ def run(ctx, prog, res):
     r3.floor(45)
 
     # R4 -------------------------------------------------------------------------------------
-    r4 = res.rule("C13.R4", "structural conditions a second normalization pass relies on (shared with C07): every emitted rule marks its days as covered; is_val is a sound universal check")
+    r4 = res.rule("C13.R4", "structural conditions a second normalization pass relies on (shared with C07): every emitted rule marks its days as covered; is_val is a sound universal check; succ/pred of every frame are inverse over the whole domain (reading and emitting an inclusive range agree)")
     import c07
     sub = lib.Result("C13")
     c07.run(ctx, prog, sub)  # MIR rules only (C07 has no witnesses)
     for v in sub.violations:
-        if v["rule"] in ("C07.R5", "C07.R6"):
+        if v["rule"] in ("C07.R5", "C07.R6", "C07.R8"):
             r4.fail(v["key"].replace("C07.", "C13.R4:"), v["message"], v["where"])
-    for rid in ("C07.R5", "C07.R6"):
+    for rid in ("C07.R5", "C07.R6", "C07.R8"):
         rr = sub.rules.get(rid)
         if rr:
             for inst in rr["instances"]:
                 r4.ok(inst)
     r4.floor(2)
+
+    # R5 -------------------------------------------------------------------------------------
+    r5 = res.rule("C13.R5", "the rule stream is never thinned or reordered: in the functions reachable from normalize no iterator adapter or container operation that can drop, stop at, or reorder elements is applied to a stream/container of RuleSequence, and each rule taken from the queue is handed to the paving")
+    n_stream = 0
+    stream_fns = sorted(f for f in prog.fns if f.startswith("opening_hours_syntax::normalize::") or any(f == r or f.startswith(r + "::{closure") for r in NORMALIZE))
+    for fid in stream_fns:
+        fn = prog.fns[fid]
+        for bb, t in fn.calls():
+            cal = t.get("callee") or {}
+            st = " ".join([cal.get("self_ty") or ""] + (cal.get("inputs") or []) + [cal.get("output") or ""])
+            if "RuleSequence" not in st:
+                continue
+            if not re.search(r"(Iterator|IntoIterator|Vec<|VecDeque<|\[opening_hours_syntax::rules::RuleSequence\]|adapters::|IntoIter<)", (cal.get("trait") or "") + " " + st):
+                continue
+            name = cal.get("name") or ""
+            n_stream += 1
+            r5.check(not THINNING.match(name), {"fn": fid.split("::")[-1], "op": name}, "C13.R5:thin:%s:%s" % (fn.module, name),
+                     "%s applies `%s` to a stream of rules: a rule can be dropped or moved after the paving pass decided what is kept, so a second pass sees a different expression" % (fid, name), lib.where_of(fn, t))
+    # each `next()` on the queue feeds Paving::set
+    nfn = prog.fns.get(NORMALIZE[0])
+    if nfn:
+        sets = [t for bb, t in nfn.calls() if (flow.call_name(t) or "").endswith("Paving>::set")]
+        taken = [t for bb, t in nfn.calls() if (t.get("callee") or {}).get("name") == "next" and "RuleSequence" in ((t.get("callee") or {}).get("self_ty") or "")]
+        for t in taken:
+            fed = any(re.search(r"::next\(.*p1\.rules", flow.shape(nfn, a, depth=8)) for s in sets for a in s["args"])
+            r5.check(fed, {"taken_rule_is_paved": True}, "C13.R5:taken-not-paved", "a rule is taken from the queue in normalize and never reaches Paving::set: it disappears from the output", lib.where_of(nfn, t))
+        r5.check(len(taken) >= 1 and len(sets) >= 1, {"queue_next_calls": len(taken), "paving_set_calls": len(sets)}, "C13.R5:ANCHOR", "ANCHOR: normalize no longer takes rules from a queue into Paving::set")
+    r5.ok({"stream_operations_classified": n_stream})
+    r5.floor(4)
